@@ -35,6 +35,7 @@ class Ctx:
         self.open = []                 # indices into log where the other branch is feasible
         self.cache = {}
         self.decision_queries = 0
+        self.decision_seconds = 0.0
         self.forks = 0
 
     def _q(self, asserts):
@@ -42,8 +43,11 @@ class Ctx:
             if self.inproc is None:
                 from .z3py import InProc
                 self.inproc = InProc(timeout_ms=int(self.decide_timeout * 1000), ints=self.ints)
+            _s0 = self.inproc.seconds
             v, _ = self.inproc.check(asserts)
-            solver.STATS.add('z3py-inproc', v, 0.0)
+            _dt = self.inproc.seconds - _s0
+            self.decision_seconds += _dt
+            solver.STATS.add('z3py-inproc', v, _dt)
             return dict(verdict=v)
         return solver.check(asserts, self.decide_timeout, self.backend, want_model=False, tag='d')
 
